@@ -24,6 +24,11 @@ def run(tier, seed):
     known = dict(name="C17_known_eof", key="pair-eof-before-data",
                  consts=bc.consts("pair", {"write", "wmr", "flush", "finish"}, 3, sizes=(3,), wms=((0, 1),), durs=(0,),
                                   allow=("pair_eof_before_data",)))
+    # directed family: L units buffered unread on a socket, read high watermark set to L-1 / L / L+1, then the peer
+    # writes more: no EOF while the peer is open, suspended at == high, reading resumes after a drain
+    HM = lambda d: dict(name="C17_sock_highmark_" + ("def" if d else "imm"), scripts=bc.sock_highmark_family(), units=(1, 512),
+                        consts=bc.consts("sock", {"write", "enable", "loop", "script", "wmr"}, 9, sizes=(1, 2, 3, 4), durs=(0,),
+                                         wms=[(lo, hi) for lo in (0, 1) for hi in (0, 1, 2, 3)], drains=(0, 1, 99), defer=d))
     quick_gen = [
         # every history of 3 steps of the data-path alphabet on a pair (TLC checks the invariants on every state of
         # every such history: this run is also the bounded model check of the quick tier); the histories that meet
@@ -35,6 +40,7 @@ def run(tier, seed):
         dict(name="C17_pair_rand", consts=P(10, extras=("none", "w1", "disR", "enR")), simulate=20, units=(1, 1000)),
         dict(name="C17_filt_" + fn, consts=F(fn, 9), simulate=15, units=(1, 3000)),
         dict(name="C17_sock_" + ("def" if df else "imm"), consts=S(df, 10, extras=("none", "w1")), simulate=20, units=(1, 512)),
+        HM(df),
     ]
     plan = {
         "mc": [] if q else [("C17_mc_pair", bc.consts("pair", DATA | {"flush", "finish", "wmr"}, 6, sizes=(1, 2), drains=(0, 99),
@@ -52,6 +58,7 @@ def run(tier, seed):
             # one read / write event moves at most 16384 bytes (max_single_read/write): unit = 4096
             dict(name="C17_sock_caps", consts=S(False, 12, rdcap=4, wrcap=4, sizes=(1, 3, 5), wirecap=8), simulate=150, units=(4096,)),
             dict(name="C17_sock_tcp", consts=S(False, 10, extras=("none", "w1")), simulate=60, units=(1, 512), tcp=1),
+            HM(False), HM(True),
         ],
         "known": [] if q else [known],
         "need": ["write", "flush", "cb:r", "cb:e:f17", "free"] + ([] if q else ["shut"]),
